@@ -165,7 +165,8 @@ class MessagePackDocument(HierDictDocument):
             try:
                 ctx.in_document = msgpack.unpackb(b''.join(ctx.in_string))
             except ValueError as e:
-                raise MessagePackDecodeError(' '.join(e.args))
+                # e.args can hold anything (ExtraData carries the document)
+                raise MessagePackDecodeError(str(e))
 
     def gen_method_request_string(self, ctx):
         """Uses information in context object to return a method_request_string.
@@ -266,7 +267,7 @@ class MessagePackRpc(MessagePackDocument):
                 raise MessagePackDecodeError("Unexpected response message")
 
         elif msgtype == MessagePackRpc.MSGPACK_NOTIFY:
-            raise NotImplementedError()
+            raise MessagePackDecodeError("Notifications are not supported")
 
         else:
             raise MessagePackDecodeError("Unknown message type %r" % (msgtype,))
